@@ -98,9 +98,14 @@ class FileSystemLoader(BaseLoader):
         raise TemplateNotFoundError(template_name)
 
     def _read(self, source_path: Path) -> tuple[str, float]:
+        # Take the modification time before reading. If the file changes while we are
+        # reading it, the recorded time is older than the file's and the template is
+        # reloaded on the next request. The other way around we could pair old text
+        # with the new modification time and never notice the change.
+        mtime = source_path.stat().st_mtime
         with source_path.open(encoding=self.encoding) as fd:
             source = fd.read()
-        return source, source_path.stat().st_mtime
+        return source, mtime
 
     def get_source(
         self,
